@@ -80,6 +80,9 @@ def step (s : St) : List String → St × String
       | some g =>
         let m := { s.m with gossip := g }
         ({ s with m := m }, "ok " ++ showState m)
+  | ["sessclose", _u, _e] =>
+    -- the session of an upstream ends before its handler deregisters it: no store changes
+    (s, "ok " ++ showState s.m)
   | ["sel", e, ar] =>
     let (r, m) := s.m.select (hx e) (ar = "1")
     let out := match r with
